@@ -1,0 +1,14 @@
+//go:build verif
+// +build verif
+
+package storage
+
+// VerifPauseHook, when set, is called at named pause points (build tag `verif` only) so that the harness can force
+// a particular interleaving (e.g. hold a proposer between Propose and its select until the entry has been applied).
+var VerifPauseHook func(name string)
+
+func verifPoint(name string) {
+	if h := VerifPauseHook; h != nil {
+		h(name)
+	}
+}
